@@ -121,6 +121,11 @@ func (c *Client) handshake(ctx context.Context) error {
 		if ctxErr := ctx.Err(); ctxErr != nil {
 			// Parent context is canceled, propagating error to allow error
 			// traversal, like errors.Is(err, context.Canceled) assertion.
+			//
+			// The watcher closes the connection only if it observes the parent
+			// context before the handshake's own one; make sure a cancelled
+			// handshake never leaves the connection open.
+			_ = c.conn.Close()
 			return errors.Wrap(multierr.Append(err, ctxErr), "parent context done")
 		}
 
